@@ -38,7 +38,7 @@ def run_cfg(chk, facts, cfg):
     two, up, lo = vidx['TwoSided'], vidx['UpperOneSided'], vidx['LowerOneSided']
     n = 0
     from ..overrides import obligation as no_overrides
-    no_overrides(chk, PID, facts, sfx, [path], 'Confidence ordering and equality')
+    no_overrides(chk, PID, facts, sfx, [path], 'Confidence ordering and equality', traits=('PartialOrd', 'PartialEq', 'Ord', 'Eq', 'Clone', 'Default', 'TryFrom', 'From'))
 
     def cval(v, payload):
         return ('adt', path, v, (payload,))
